@@ -25,7 +25,7 @@ use crate::gen::{classical, rf};
 use crate::model::frames as fmodel;
 use crate::{ensure, fail};
 use quil_rs::instruction::{
-    Call, DefaultHandler, Declaration, FrameIdentifier, Gate, Instruction, Qubit, ScalarType, UnresolvedCallArgument, Vector, Waveform, WaveformDefinition,
+    Call, DefaultHandler, InstructionHandler, Declaration, FrameIdentifier, Gate, Instruction, Qubit, ScalarType, UnresolvedCallArgument, Vector, Waveform, WaveformDefinition,
 };
 use quil_rs::program::scheduling::ScheduledProgram;
 use quil_rs::quil::Quil;
@@ -61,7 +61,7 @@ fn cal_body(src: &mut Src, opts: &Opts) -> String {
 }
 
 pub fn generate(src: &mut Src, tier: Tier) -> Generated {
-    let opts = Opts { classical: true, control_flow: true, reset: false, rf_memory: true, timed_only: false, define_pct: 60, max_len: tier.pick(7, 12) };
+    let opts = Opts { classical: true, control_flow: true, reset: true, rf_memory: true, timed_only: false, define_pct: 60, max_len: tier.pick(7, 12) };
     let base = rfprog::generate(src, &opts);
     let mut instrs: Vec<Instruction> = base.program.to_instructions().into_iter().filter(|i| defs::classify(i).0 != Kind::Body).collect();
     let mut body = base.body.clone();
@@ -172,6 +172,17 @@ pub fn oracle(g: &Generated, out: &mut Outcome) -> Check {
     for i in &ebody {
         if let Some(m) = fmodel::matching(&defined, i) {
             used.extend(m.used);
+        } else if matches!(i, Instruction::Reset(r) if r.qubit.is_none()) {
+            // the statement of C26 does not define a bare RESET; the frames it uses are whatever the
+            // default handler reports for it *in the expanded program* (whose body is the one kept)
+            if let Some(m) = lib(|| DefaultHandler.matching_frames(&e, i))? {
+                out.class("bare-reset");
+                for f in m.used {
+                    if let Some(k) = defined.iter().position(|d| d == f) {
+                        used.insert(k);
+                    }
+                }
+            }
         }
     }
     let want_frames = sorted(used.iter().map(|k| defined[*k].to_quil_or_debug()));
@@ -277,7 +288,7 @@ impl Property for C35Prop {
         "random programs: each of 4 frames on overlapping qubits defined with probability 0.6, body of <= 7/12 RF (incl. undefined frames), classical and control-flow instructions plus up to 4 extras (gates X/Y/Z, PULSE with defined/undefined waveform names, CALL of defined/undefined externs, MEASURE), waveform definitions wa/wb/wc + custom4, up to 3 PRAGMA EXTERN (named/unnamed/non-identifier), up to 2 DEFGATE/DEFCIRCUIT, up to 3 DEFCALs (X/Y on 0/1/variable, MEASURE) whose bodies hold RF instructions, DECLARE tmp (hoisted), PULSE with wa/wb, CALL. Non-trivial = for frames, waveforms or externs at least one definition is removed and one kept; distinct by program text hash."
     }
     fn assumptions(&self) -> Vec<&'static str> {
-        vec!["'frames used' follows the Quil-T rules of C26 (reference model), bare RESET not generated", "schedules compared bit-for-bit (same code on both sides)"]
+        vec!["'frames used' follows the Quil-T rules of C26 (reference model), for a bare RESET the handler's own answer on the expanded program is the reference", "schedules compared bit-for-bit (same code on both sides)"]
     }
     fn max_words(&self) -> usize {
         600
@@ -300,6 +311,7 @@ impl Property for C35Prop {
             ("waveforms:kept+removed", 0.1),
             ("externs:kept+removed", 0.02),
             ("calibration-expanded", 0.1),
+            ("bare-reset", 0.03),
             ("schedule-compared", 0.05),
         ]
     }
